@@ -303,19 +303,33 @@ def stage_rows(ctx):
     ctx.traces += len(rows) + len(progs)
 
 
+def repair_boundary_cases():
+    """structured exhaustive core: one tag event (or none) at every timing relative to start, natural
+    end and horizon"""
+    for n in range(1, 9):
+        for start in range(-7, n + 1):
+            for nrd in range(1, 7):
+                for delay in (0, 1, 2, 3):
+                    for tag in [None] + list(range(n)):
+                        yield (start, nrd, delay, n, [] if tag is None else [(tag, 1, 0)])
+
+
 def stage_repair(ctx):
     from harness.adapters import cost as K
-    from harness.props import _emission_common as EC
-
     cases = []
-    core_cases = [c for c in EC.boundary_cases() if c[3]]
+    core_cases = list(repair_boundary_cases())
     ctx.rng.shuffle(core_cases)
-    for c in core_cases[: ctx.pick(2500, 40000)]:
-        cases.append((c[0], c[1], c[2], c[7], ctx.rng.choice([200, 64, 0]), c[8]))
+    for (start, nrd, delay, n, evs) in core_cases[: ctx.pick(2500, 40000)]:
+        cases.append((start, nrd, delay, n, ctx.rng.choice([200, 64, 0]), evs))
     for _ in range(ctx.pick(1500, 30000)):
-        c = EC.random_case(ctx.rng)
-        if c[3] and not c[4]:
-            cases.append((c[0], c[1], c[2], c[7], ctx.rng.choice([200, 64]), c[8]))
+        big = ctx.rng.random() < 0.1
+        n = ctx.rng.randint(20, 200) if big else ctx.rng.randint(1, 9)
+        nrd = ctx.rng.randint(1, 250) if big else ctx.rng.randint(1, 7)
+        start = ctx.rng.randint(-nrd, n) if big else ctx.rng.randint(-8, n)
+        delay = ctx.rng.choice([0, 1, 2, 7, 14, 30]) if big else ctx.rng.randint(0, 3)
+        evs = sorted((ctx.rng.randrange(n), ctx.rng.randint(1, 3), ctx.rng.choice([0, 0, 1, 2, 3]))
+                     for _ in range(ctx.rng.choice([0, 1, 1, 1, 2, 3])))
+        cases.append((start, nrd, delay, n, ctx.rng.choice([200, 64]), evs))
     model = core.LeanDriver("drv_cost").run([K.repair_line(*c) for c in cases])
     for c, ml in zip(cases, model):
         per_day, status, em = K.impl_repair(*c)
